@@ -530,6 +530,24 @@ func runLeaseScenario(sc leaseScenario) (*leaseSys, bool) {
 		}
 	case "death":
 		// a waiter blocks in LockWithCtx before the holder dies
+		if sc.Phase%2 == 0 {
+			// ... and another caller waits as well and gives up shortly AFTER the holder died (no renewal wakes the
+			// waiters any more), well before the record runs out
+			early := make(chan struct{})
+			go func() {
+				defer close(early)
+				giveUp := t0 + int64(sc.Periods)*ttl/2 + int64(sc.Phase)*ttl/16 + ttl/8 - s.now()
+				ectx, ecancel := context.WithTimeout(context.Background(), time.Duration(giveUp)*time.Microsecond)
+				defer ecancel()
+				err := contender.locker.LockWithCtx(ectx)
+				s.log(map[string]any{"e": "try", "p": 2, "ok": err == nil})
+				if err == nil {
+					contender.locker.Unlock()
+				}
+			}()
+			defer func() { <-early }()
+			time.Sleep(5 * time.Millisecond)
+		}
 		ctx, cancel := context.WithTimeout(context.Background(), time.Duration(8*ttl)*time.Microsecond+5*time.Second)
 		done := make(chan struct{})
 		go func() {
